@@ -390,7 +390,7 @@ func verifyUniqueEnumItemLabels(spec *compile.EnumSpec) error {
 // there are no value collisions between items.
 func enumUniqueItems(items []compile.EnumItem) []compile.EnumItem {
 	used := make(map[int32]struct{}, len(items))
-	filtered := items[:0] // zero-alloc filtering
+	filtered := make([]compile.EnumItem, 0, len(items))
 	for _, i := range items {
 		if _, isUsed := used[i.Value]; isUsed {
 			continue
